@@ -278,4 +278,100 @@ theorem fetchOffline_served {served : List (Etag × Text)} {c : Cache} (hs : Sou
     | some e => exact ⟨e, hs f hm.1 e hn⟩
   · cases h
 
+/-! ### requests of the cache path -/
+
+def headCount : List Ev → Nat
+  | [] => 0
+  | .head :: es => headCount es + 1
+  | _ :: es => headCount es
+
+def getCount : List Ev → Nat
+  | [] => 0
+  | .get _ :: es => getCount es + 1
+  | _ :: es => getCount es
+
+theorem headCount_append (l₁ l₂ : List Ev) : headCount (l₁ ++ l₂) = headCount l₁ + headCount l₂ := by
+  induction l₁ with
+  | nil => simp [headCount]
+  | cons e es ih => cases e <;> simp [headCount, ih] <;> omega
+
+theorem getCount_append (l₁ l₂ : List Ev) : getCount (l₁ ++ l₂) = getCount l₁ + getCount l₂ := by
+  induction l₁ with
+  | nil => simp [getCount]
+  | cons e es ih => cases e <;> simp [getCount, ih] <;> omega
+
+theorem counts_map_body (l : List Res) :
+    headCount (l.map Ev.body) = 0 ∧ getCount (l.map Ev.body) = 0 := by
+  induction l with
+  | nil => exact ⟨rfl, rfl⟩
+  | cons a t ih => simpa [headCount, getCount] using ih
+
+theorem cacheHead_evs (hasMemo : Bool) (s : Srv) (c : Cache) (script : List XConn) :
+    headCount (cacheHead hasMemo s c script).2.2.2 ≤ 1 ∧ getCount (cacheHead hasMemo s c script).2.2.2 = 0 := by
+  unfold cacheHead
+  split
+  · exact ⟨Nat.zero_le _, rfl⟩
+  · split <;> exact ⟨Nat.le_refl _, rfl⟩
+
+theorem retrieve_evs (cl : Callers) (s : Srv) (c : Cache) (script : List XConn) (sz : Nat → Nat) :
+    headCount (retrieve cl s c script sz).2.2.2 = 0 ∧ getCount (retrieve cl s c script sz).2.2.2 = 1 := by
+  have hb := counts_map_body
+  unfold retrieve
+  split
+  · exact ⟨rfl, rfl⟩
+  · split
+    · exact ⟨rfl, rfl⟩
+    · split
+      · exact ⟨rfl, rfl⟩
+      · split
+        · exact ⟨rfl, rfl⟩
+        · simp only
+          split
+          · split <;> simp [headCount, getCount, hb]
+          · simp [headCount, getCount, hb]
+
+theorem facEtag_evs (hasMemo : Bool) (s : Srv) (c : Cache) (initial : Option Etag) (script : List XConn) :
+    headCount (facEtag hasMemo s c initial script).2.2.2 ≤ 1 ∧
+    getCount (facEtag hasMemo s c initial script).2.2.2 = 0 := by
+  unfold facEtag
+  cases initial with
+  | some e => exact ⟨Nat.zero_le _, rfl⟩
+  | none =>
+    have h := cacheHead_evs hasMemo s c script
+    generalize cacheHead hasMemo s c script = ch at h
+    obtain ⟨o, c1, rest, evs⟩ := ch
+    cases o <;> exact h
+
+theorem facGet_evs (cl : Callers) (s : Srv) (c : Cache) (e : Etag) (script : List XConn) (sz : Nat → Nat) :
+    headCount (facGet cl s c e script sz).2.2.2 = 0 ∧ getCount (facGet cl s c e script sz).2.2.2 ≤ 1 := by
+  unfold facGet
+  split
+  · exact ⟨rfl, Nat.zero_le _⟩
+  · have h := retrieve_evs cl s c script sz
+    generalize retrieve cl s c script sz = rv at h
+    obtain ⟨ro, c2, rest2, evs2⟩ := rv
+    simp only at h
+    cases ro with
+    | none => exact ⟨h.1, Nat.le_of_eq h.2⟩
+    | some fin =>
+      simp only
+      split <;> exact ⟨h.1, Nat.le_of_eq h.2⟩
+
+theorem fetchAndCache_evs (cl : Callers) (hasMemo : Bool) (s : Srv) (c : Cache) (initial : Option Etag)
+    (script : List XConn) (sz : Nat → Nat) :
+    headCount (fetchAndCache cl hasMemo s c initial script sz).2.2.2 ≤ 1 ∧
+    getCount (fetchAndCache cl hasMemo s c initial script sz).2.2.2 ≤ 1 := by
+  unfold fetchAndCache
+  have h := facEtag_evs hasMemo s c initial script
+  generalize facEtag hasMemo s c initial script = ph at h
+  obtain ⟨o, c1, rest, evs⟩ := ph
+  simp only at h
+  match o with
+  | none => exact ⟨h.1, by rw [h.2]; exact Nat.zero_le _⟩
+  | some none => exact ⟨h.1, by rw [h.2]; exact Nat.zero_le _⟩
+  | some (some e) =>
+    have hg := facGet_evs cl s c1 e rest sz
+    simp only [headCount_append, getCount_append]
+    omega
+
 end Apko.Fetch
